@@ -444,6 +444,21 @@ impl PacketTrait for SecretSubkey {
 }
 
 impl SecretKey {
+    /// The body length changes when the secret material is locked or unlocked:
+    /// keep the stored packet header in line with it.
+    fn refresh_packet_header(&mut self) -> Result<()> {
+        if self.packet_header.packet_length().maybe_len().is_some() {
+            let len = crate::ser::Serialize::write_len(&self.details)
+                + self.secret_params.write_len(self.details.version());
+            self.packet_header = PacketHeader::from_parts(
+                self.packet_header.version(),
+                self.packet_header.tag(),
+                crate::types::PacketLength::Fixed(len.try_into()?),
+            )?;
+        }
+        Ok(())
+    }
+
     /// Remove the password protection of the private key material in this secret key packet.
     /// This permanently "unlocks" the secret key material.
     ///
@@ -454,6 +469,7 @@ impl SecretKey {
         if let SecretParams::Encrypted(enc) = &self.secret_params {
             let unlocked = enc.unlock(password, &self.details, Some(self.packet_header.tag()))?;
             self.secret_params = SecretParams::Plain(unlocked);
+            self.refresh_packet_header()?;
         }
 
         Ok(())
@@ -499,12 +515,28 @@ impl SecretKey {
             &self.details,
             Some(self.packet_header.tag()),
         )?);
+        self.refresh_packet_header()?;
 
         Ok(())
     }
 }
 
 impl SecretSubkey {
+    /// The body length changes when the secret material is locked or unlocked:
+    /// keep the stored packet header in line with it.
+    fn refresh_packet_header(&mut self) -> Result<()> {
+        if self.packet_header.packet_length().maybe_len().is_some() {
+            let len = crate::ser::Serialize::write_len(&self.details)
+                + self.secret_params.write_len(self.details.version());
+            self.packet_header = PacketHeader::from_parts(
+                self.packet_header.version(),
+                self.packet_header.tag(),
+                crate::types::PacketLength::Fixed(len.try_into()?),
+            )?;
+        }
+        Ok(())
+    }
+
     /// Remove the password protection of the private key material in this secret key packet.
     /// This permanently "unlocks" the secret key material.
     ///
@@ -515,6 +547,7 @@ impl SecretSubkey {
         if let SecretParams::Encrypted(enc) = &self.secret_params {
             let unlocked = enc.unlock(password, &self.details, Some(self.packet_header.tag()))?;
             self.secret_params = SecretParams::Plain(unlocked);
+            self.refresh_packet_header()?;
         }
 
         Ok(())
@@ -558,6 +591,7 @@ impl SecretSubkey {
             &self.details,
             Some(self.packet_header.tag()),
         )?);
+        self.refresh_packet_header()?;
 
         Ok(())
     }
